@@ -72,7 +72,7 @@ def build_message(kind, peer, idx, salt):
     if kind == "verack":
         return b"verack", b""
     if kind == "version":
-        ua = b"/c18:%d.%d/" % (peer, idx)
+        ua = b"/c18:%d.%d/" % (peer, idx) if (salt >> 6) % 4 else b""  # one version message in four announces no user agent
         # the announced protocol version varies (the statement does not make the verack or later pongs depend on it)
         pv = (70015, 70016, 70001, 60002, 60001, 60000, 31800, 209, 106, 0, 2**31 - 1, 2**32 - 1)[(salt >> 2) % 12]
         pl = W.version_payload(
